@@ -377,6 +377,15 @@ pub fn c03(opts: &Opts, out: &mut Out) {
     // the odd member as the strictly largest statement of the batch (it then supplies the precomputed table)
     let other_ped_big = make_valid(n, 8, 8, t, false, 1, &mut rng);
     let other_t_big = make_valid(n, 8, 16, if t == 6 { 5 } else { t + 1 }, false, 0, &mut rng);
+    // promise lists of another length than the commitment list (statement field altered after construction)
+    let mut promise_missing = make_valid(n, 2, 2, t, false, 0, &mut rng);
+    promise_missing.stmt.minimum_value_promises.pop();
+    promise_missing.fit = false;
+    promise_missing.valid = false;
+    let mut promise_surplus = make_valid(n, 8, 8, t, false, 0, &mut rng);
+    promise_surplus.stmt.minimum_value_promises.push(None);
+    promise_surplus.fit = false;
+    promise_surplus.valid = false;
     let mut bad_promise_big = make_valid(n, 8, 8, t, false, 0, &mut rng);
     bad_promise_big.stmt.minimum_value_promises[5] = Some(u64::MAX);
     bad_promise_big.fit = false;
@@ -413,7 +422,8 @@ pub fn c03(opts: &Opts, out: &mut Out) {
         }
     }
     for (name, odd) in [("other-bits", &other_n), ("other-degree", &other_t), ("other-pedersen", &other_ped), ("promise-out-of-range", &bad_promise),
-        ("other-pedersen-largest", &other_ped_big), ("other-degree-largest", &other_t_big), ("promise-out-of-range-largest", &bad_promise_big)] {
+        ("other-pedersen-largest", &other_ped_big), ("other-degree-largest", &other_t_big), ("promise-out-of-range-largest", &bad_promise_big),
+        ("promise-missing", &promise_missing), ("promise-surplus-largest", &promise_surplus)] {
         for (k, pos) in [(2usize, 1usize), (3, 0), (300, 280), (300, 10), (257, 256), (513, 512)] {
             let mut ms: Vec<&Tmpl> = (0..k).map(|i| &valid[i % valid.len()]).collect();
             ms[pos] = odd;
